@@ -401,6 +401,11 @@ static u64 aliasFinalize(HasherPool& pool, const u8* msg, size_t L, Rng& r) {
   hist.addf("\n  %s hasher, %d update(s), last update reads [%lu,%lu) of a %lu-byte block, finalize writes [%lu,%lu) of that block\n", stName(st), pieces, (unsigned long)po, (unsigned long)(po + lastLen), (unsigned long)B, (unsigned long)ro, (unsigned long)ro + 32);
   Exact mcopy; mcopy.set(msg, L); Dig want; setctx("Sha256.hash/one-shot"); Sha256::hash(mcopy.p, L, want.ref()); cnt("digests"); cnt("updates"); cnt("one_shot_recorded"); padClass(L);
   { Text t; t.add("H "); addHex(t, mcopy.p, L); t.add(" "); addHex(t, want.d, 32); t.add("\n"); rec("%s", t.c()); }
+  // control: the same hasher state and the same updates with a digest buffer of its own (a hasher-state defect must not be reported under the aliasing key)
+  { Sha256* c = pool.get(st); Dig ctl; setctxf("Sha256.update/k-way/%s", stName(st));
+    if (pieces == 3) { c->update(head.p, cut[0]); c->update(head.p + cut[0], cut[1] - cut[0]); cnt("updates", 2); } else if (pieces == 2) { c->update(head.p, cut[0]); cnt("updates"); }
+    c->update(blk.p + po, lastLen); c->finalize(ctl.ref()); cnt("updates"); cnt("digests");
+    char key[96]; snprintf(key, sizeof key, "Sha256.update/k-way/%s/digest", stName(st)); expectEq(ctl.d, want.d, key, "control run before the aliased finalize()"); }
   Sha256* h = pool.get(st);
   setctx("Sha256.update/before-aliased-finalize");
   if (pieces == 3) { h->update(head.p, cut[0]); h->update(head.p + cut[0], cut[1] - cut[0]); cnt("updates", 2); } else if (pieces == 2) { h->update(head.p, cut[0]); cnt("updates"); }
